@@ -29,11 +29,12 @@ class Gen:
     could_be_none: bool
     default_is_none: bool
     trivial: bool  # the unpacker is the bare input
+    triv_unknown: bool = False  # the generator path never looked at triviality: the block must be right either way
 
     def label(self) -> str:
         return (f"alias={'?' if self.has_alias is None else int(self.has_alias)} allow={int(self.allow)} "
                 f"default={int(self.has_default)} nullable={int(self.could_be_none)} "
-                f"default_none={int(self.default_is_none)} trivial={int(self.trivial)}")
+                f"default_none={int(self.default_is_none)} trivial={int(self.trivial)}{'*' if self.triv_unknown else ''}")
 
 
 @dataclass
@@ -105,7 +106,8 @@ def gen_facts(p: Path) -> Gen:
             cbn = True
     triv = atom(r"UNPACK\[ftype\]\(value\) == value")
     if triv is None:
-        raise Undecided("cannot find the 'unpacker == \"value\"' atom on a build() path")
+        # this path emitted its block without asking whether the unpacker is the bare input: it serves both kinds of field
+        return Gen(has_alias, allow, has_default, cbn, default_is_none, False, True)
     return Gen(has_alias, allow, has_default, cbn, default_is_none, bool(triv))
 
 
@@ -197,6 +199,10 @@ def analyse(repo: Repo) -> BlockResult:
             res.undecided.append(f"{g.label()}: {e}")
             continue
         _compare(res, g, r, roles, runs)
+        if g.triv_unknown:
+            import dataclasses as _dc
+
+            _compare(res, _dc.replace(g, trivial=True), r, roles, runs)
     return res
 
 
@@ -240,6 +246,8 @@ def _compare(res: BlockResult, g: Gen, r: Rendered, roles: Roles, runs: List[Run
             continue
         if not g.has_alias and (val["alias_present"] or val["alias_none"]):
             continue  # there is no alias key
+        if g.triv_unknown and g.trivial and val["conv_raises"]:
+            continue  # the identity conversion cannot raise
         res.valuations += 1
         matching = [run for f, run in classified if all(val.get(k) == v for k, v in f.items())]
         if len(matching) != 1:
@@ -378,6 +386,8 @@ def _agree(exp: Tuple, act: Tuple, g: Gen) -> bool:
             return act[0] == "store" and act[2] == "None" and bool(act[3])
         if act[0] != "store" or not act[3]:
             return False
+        if g.triv_unknown and g.trivial and kind == "raw" and act[2] == "converted":
+            return act[1] == key  # the conversion is the identity on this variant
         return act[1] == key and act[2] == kind
     return False
 
